@@ -92,11 +92,14 @@ PROPS['C15'] = Prop(
     outside='more than K steps after the initial configuration; more than 3 removers / 2 targets; exceptions inside remover operations (C09); threads')
 
 _OQ = 'EventQueue with OrderedQueueList policy, comparator %s; the ordering key is a fully symbolic 32-bit value per event (the solver enumerates every feasible ordering incl. ties); K=%d steps as C05, RA=%d re-entrant operation(s)'
+_OM = 'size-threshold probe: %d pending events (beyond the 16-element insertion-sort threshold of libstdc++ sorts), keys of 3 classes in a fixed interleaved pattern (NOT symbolic: a symbolic comparison would fork at every comparison of the sort), payloads symbolic, %s; consumed by process / processOne x N / takeEvent+dispatch x N / processIf+put-back+process'
+_OMR = [Run('q_ordered_many_arg20', 'q_ordered_many.cpp', {'NN': 20, 'CMP': 0}, covers=4, bounds=_OM % (20, 'user comparator on the first argument')),
+        Run('q_ordered_many_event40', 'q_ordered_many.cpp', {'NN': 40, 'CMP': 1}, covers=4, bounds=_OM % (40, 'default comparator (by event)'))]
 PROPS['C13'] = Prop(
     quick=[Run('q_ordered_asc_k3', 'q_history.cpp', {'KK': 3, 'RA': 1, 'PAYLOAD': 0, 'ORDERED': 1}, covers=13, bounds=_OQ % ('ascending on the first argument', 3, 1)),
            Run('q_ordered_desc_k3', 'q_history.cpp', {'KK': 3, 'RA': 0, 'PAYLOAD': 0, 'ORDERED': 2}, covers=13, optional_covers=(4, 5), bounds=_OQ % ('descending on the first argument', 3, 0)),
-           Run('q_ordered_event_k3', 'q_history.cpp', {'KK': 3, 'RA': 0, 'PAYLOAD': 0, 'ORDERED': 3}, covers=13, optional_covers=(4, 5), bounds='default OrderedQueueListCompare (orders by event, 2 concrete event keys), K=3, payload symbolic')],
-    thorough=[Run('q_ordered_asc_k4', 'q_history.cpp', {'KK': 4, 'RA': 1, 'PAYLOAD': 0, 'ORDERED': 1}, covers=13, budget_s=1700, bounds=_OQ % ('ascending on the first argument', 4, 1)),
+           Run('q_ordered_event_k3', 'q_history.cpp', {'KK': 3, 'RA': 0, 'PAYLOAD': 0, 'ORDERED': 3}, covers=13, optional_covers=(4, 5), bounds='default OrderedQueueListCompare (orders by event, 2 concrete event keys), K=3, payload symbolic')] + _OMR,
+    thorough=_OMR + [Run('q_ordered_asc_k4', 'q_history.cpp', {'KK': 4, 'RA': 1, 'PAYLOAD': 0, 'ORDERED': 1}, covers=13, budget_s=1700, bounds=_OQ % ('ascending on the first argument', 4, 1)),
               Run('q_ordered_desc_k4', 'q_history.cpp', {'KK': 4, 'RA': 1, 'PAYLOAD': 0, 'ORDERED': 2}, covers=13, budget_s=1700, bounds=_OQ % ('descending on the first argument', 4, 1)),
               Run('q_ordered_event_k4', 'q_history.cpp', {'KK': 4, 'RA': 1, 'PAYLOAD': 0, 'ORDERED': 3}, covers=13, budget_s=1700, bounds='default comparator by event, K=4, RA=1')],
     outside='more than K steps / K pending events (std::list::sort is executed in full, no unwinding cut); comparators that are not strict weak orders',
@@ -309,13 +312,15 @@ PROPS['C07'] = Prop(
 
 _FT = ('%s (lowered with -fexceptions); state reached fault-free, then ONE operation runs with fault injection enabled: every operator new, every callback/listener/predicate body and every copy/move of the tracked callback and payload types '
        'is a fault point and the engine forks "throws / does not throw" at each of them (F=%d fault(s) per path); afterwards the object is observed, used again and destroyed; ledger + engine heap accounting')
-def _ft(name, cls, what, f=1, **kw):
+def _ft(name, cls, what, f=1, defs=None, **kw):
     # native replay with clang -O1 builds only: the number of fault points on a path (copy/move constructor calls, and operator new calls that LLVM may elide at -O1) depends on front end and optimisation level
-    return Run(name, 'faults.cpp', {'CLASS': cls}, exc=True, own_new=True, faults=f, covers=6, native=('clang-O1-san', 'clang-O1'), bounds=_FT % (what, f), **kw)
+    d = {'CLASS': cls}; d.update(defs or {})
+    return Run(name, 'faults.cpp', d, exc=True, own_new=True, faults=f, covers=6, native=('clang-O1-san', 'clang-O1'), bounds=_FT % (what, f), **kw)
 PROPS['C09'] = Prop(
     quick=[_ft('faults_cl', 0, 'CallbackList with 1..3 callbacks: append / invoke / copy-construct / copy-assign / move-assign+swap', optional_covers=(3,)),
            _ft('faults_queue', 1, 'EventQueue with 0..3 pending events and a recycled slot: enqueue / process / processOne / processIf / peekEvent / takeEvent', optional_covers=(5,)),
-           _ft('faults_disp', 2, 'EventDispatcher: appendListener (existing and new event), via ScopedRemover / CounterRemover / ConditionalRemover, dispatch, copy', optional_covers=(3, 5)),
+           _ft('faults_disp', 2, 'EventDispatcher: append/prepend/insertListener (existing and new event), via ScopedRemover / CounterRemover / ConditionalRemover, dispatch, copy', optional_covers=(3, 5)),
+           _ft('faults_disp_fkey', 2, 'EventDispatcher with a user Event type whose copies and comparisons can throw (std::map): the same operations', defs={'FKEY': None}, optional_covers=(0, 1, 2, 3, 5)),
            _ft('faults_hcl', 3, 'HeterCallbackList: append / invoke / copy-construct / copy-assign / move-assign+swap', optional_covers=(3,))],
     thorough=[_ft('faults_cl_f2', 0, 'CallbackList', 2, optional_covers=(3,), budget_s=1700), _ft('faults_queue_f2', 1, 'EventQueue', 2, optional_covers=(5,), budget_s=1700),
               _ft('faults_disp_f2', 2, 'EventDispatcher + removers', 2, optional_covers=(3, 5), budget_s=1700), _ft('faults_hcl_f2', 3, 'HeterCallbackList', 2, optional_covers=(3,), budget_s=1700)],
